@@ -303,3 +303,83 @@ def rule_ANG1(ctx, files=None):
             res.fail(f.q, 'units', f.loc(at), '%s: %s' % (f.q, msg))
     res.analysed.update({'functions': nfn, 'degree_conversions_seen': nconv, 'sites_with_known_units_checked': nchk})
     return res, nfn, nchk
+
+
+# ---------------------------------------------------------------------------------------------- AUX1
+AUX_KIND = {0: 'phi', 1: 'beta', 2: 'theta', 3: 'mu', 4: 'chi', 5: 'xi'}
+_KIND_RE = _re.compile(r'^_?(phi|beta|theta|mu|chi|xi)(?![a-z])')
+
+
+def _kind_of_name(name):
+    m = _KIND_RE.match(name or '')
+    return m.group(1) if m else None
+
+
+def rule_AUX1(ctx, files=None):
+    res = RuleResult('AUX1', 'auxiliary-latitude kinds agree with the variables: in every call of AuxLatitude::Convert / '
+                             'DAuxLatitude::DConvert whose angle argument is a variable named after a latitude kind (phi, beta, '
+                             'theta, mu, chi, xi) that kind is the one the auxin enumerator names, and a variable named after a '
+                             'kind that receives the result is of the auxout kind')
+    nsite = 0
+    seen = set()
+    for f in sorted(ctx.lib_fns(), key=lambda x: (x.file, x.line)):
+        if f.d.get('body', -1) < 0 or (files and not any(f.file.endswith(x) for x in files)) or (f.file, f.line, f.name) in seen:
+            continue
+        seen.add((f.file, f.line, f.name))
+        # variable (or member) initialised / assigned from a node
+        target = {}
+        for i, n in f.all_nodes():
+            if n['k'] == 'DeclStmt':
+                for d in n['decls']:
+                    if d.get('init', -1) >= 0:
+                        for j in f.walk(d['init']):
+                            target.setdefault(j, d['name'])
+            elif n['k'] in ('BinaryOperator', 'CXXOperatorCallExpr') and (n.get('op') == '=' or (n.get('callee') or {}).get('name') == 'operator='):
+                ch = n.get('args') or n.get('ch')
+                if len(ch) >= 2:
+                    ln = f.nodes[f.strip_casts(ch[0])]
+                    nm = ln.get('name') if ln['k'] == 'DeclRefExpr' else (ln.get('m') if ln['k'] == 'MemberExpr' else None)
+                    if nm:
+                        for j in f.walk(ch[1]):
+                            target.setdefault(j, nm)
+        for it in f.d.get('inits', []):
+            if it.get('kind') == 'member' and it.get('init', -1) >= 0:
+                for j in f.walk(it['init']):
+                    target.setdefault(j, it['m'])
+        for i, n in f.all_nodes():
+            ce = n.get('callee') or {}
+            if ce.get('name') not in ('Convert', 'DConvert') or 'AuxLatitude' not in (ce.get('q') or ''):
+                continue
+            args = n.get('args', [])
+            if len(args) < 3:
+                continue
+            kin, kout = [f.nodes[f.strip_casts(a)].get('cv') for a in args[:2]]
+            if kin is None or kout is None:
+                continue                      # forwarded enumerators (the generic wrappers)
+            kin, kout = AUX_KIND.get(int(kin)), AUX_KIND.get(int(kout))
+            nang = 2 if ce['name'] == 'DConvert' else 1
+            for a in args[2:2 + nang]:
+                an = f.nodes[f.strip_casts(a)]
+                while an['k'] in ('CXXConstructExpr', 'MaterializeTemporaryExpr', 'CXXBindTemporaryExpr') and (an.get('args') or an.get('ch')):
+                    an = f.nodes[f.strip_casts((an.get('args') or an['ch'])[0])]
+                nm = an.get('name') if an['k'] == 'DeclRefExpr' else (an.get('m') if an['k'] == 'MemberExpr' else None)
+                kv = _kind_of_name(nm)
+                if kv is None:
+                    continue
+                nsite += 1
+                ok = kv == kin
+                res.ob(ok, None)
+                if not ok:
+                    res.fail(f.q, '%s as %s' % (nm, kin), f.loc(i), '%s is converted from the %s latitude but is given %s'
+                             % (f.loc(i), kin, nm))
+            if ce['name'] == 'Convert':
+                tv = _kind_of_name(target.get(i))
+                if tv is not None:
+                    nsite += 1
+                    ok = tv == kout
+                    res.ob(ok, None)
+                    if not ok:
+                        res.fail(f.q, '%s from %s' % (target.get(i), kout), f.loc(i),
+                                 'the %s latitude computed at %s is stored in %s' % (kout, f.loc(i), target.get(i)))
+    res.analysed['named_conversion_sites'] = nsite
+    return res, nsite
